@@ -3,7 +3,7 @@
 (* logged inside the queue mutex, function applications, yields) must be a behaviour of LazyPool.  *)
 (* Many traces per TLC run: the trace id is chosen in the initial state; the longest matched       *)
 (* prefix of every trace is kept in TLC register <id> and printed by the POSTCONDITION.           *)
-EXTENDS LazyPool, Json, IOUtils, TLCExt
+EXTENDS LazyPool, Json, IOUtils, TLC, TLCExt
 
 VARIABLES tid, l
 tvars == <<vars, tid, l>>
